@@ -6,48 +6,30 @@
    The full `Parser::parse_type` entry (lexer, CST, ignored tokens, error recovery) is modelled
    elsewhere (C01/C07); the C10 tie runs the real `Type::parse` on printed types only.
    Definitions only; proofs in TypeRefProofs.v. *)
-From ApolloVerif Require Import Base.Chars.
+From ApolloVerif Require Import Base.Chars Ast.Ast.
 
-Inductive tref :=
-| TrNamed (n : str)
-| TrNonNullNamed (n : str)
-| TrList (t : tref)
-| TrNonNullList (t : tref).
+(* ast::Type is Ast.ty := TNamed | TNonNullNamed | TList | TNonNullList (shared AST) *)
 
 (* Display for Type *)
-Fixpoint tref_print (t : tref) : str :=
+Fixpoint tref_print (t : ty) : str :=
   match t with
-  | TrNamed n => n
-  | TrNonNullNamed n => n ++ [c_bang]
-  | TrList i => [c_lbrack] ++ tref_print i ++ [c_rbrack]
-  | TrNonNullList i => [c_lbrack] ++ tref_print i ++ [c_rbrack; c_bang]
+  | TNamed n => n
+  | TNonNullNamed n => n ++ [c_bang]
+  | TList i => [c_lbrack] ++ tref_print i ++ [c_rbrack]
+  | TNonNullList i => [c_lbrack] ++ tref_print i ++ [c_rbrack; c_bang]
   end.
 
-Fixpoint tref_wf (t : tref) : bool :=
+Fixpoint tref_wf (t : ty) : bool :=
   match t with
-  | TrNamed n | TrNonNullNamed n => is_valid_name n
-  | TrList i | TrNonNullList i => tref_wf i
+  | TNamed n | TNonNullNamed n => is_valid_name n
+  | TList i | TNonNullList i => tref_wf i
   end.
 
 (* number of list wrappers *)
-Fixpoint tref_depth (t : tref) : nat :=
+Fixpoint tref_depth (t : ty) : nat :=
   match t with
-  | TrNamed _ | TrNonNullNamed _ => O
-  | TrList i | TrNonNullList i => S (tref_depth i)
-  end.
-
-Fixpoint tref_name_eqb (a b : str) : bool :=
-  match a, b with
-  | [], [] => true
-  | x :: a, y :: b => (x =? y) && tref_name_eqb a b
-  | _, _ => false
-  end.
-
-Fixpoint tref_eqb (a b : tref) : bool :=
-  match a, b with
-  | TrNamed x, TrNamed y | TrNonNullNamed x, TrNonNullNamed y => tref_name_eqb x y
-  | TrList x, TrList y | TrNonNullList x, TrNonNullList y => tref_eqb x y
-  | _, _ => false
+  | TNamed _ | TNonNullNamed _ => O
+  | TList i | TNonNullList i => S (tref_depth i)
   end.
 
 (* ---- tokens of a type reference ---- *)
@@ -89,7 +71,7 @@ Fixpoint tref_lex (cur : str) (s : str) : option (list trtok) :=
   end.
 
 (* ---- recursive descent, as grammar/ty.rs `parse`: a list costs one unit of the recursion limit ---- *)
-Inductive trres := TrOk (t : tref) (rest : list trtok) | TrErr | TrLimit.
+Inductive trres := TrOk (t : ty) (rest : list trtok) | TrErr | TrLimit.
 
 Fixpoint tref_parse_toks (limit : nat) (toks : list trtok) : trres :=
   match toks with
@@ -100,8 +82,8 @@ Fixpoint tref_parse_toks (limit : nat) (toks : list trtok) : trres :=
           match tref_parse_toks l r with
           | TrOk i (TtRBrack :: r') =>                       (* p.expect(T![']']) *)
               match r' with
-              | TtBang :: r'' => TrOk (TrNonNullList i) r''
-              | _ => TrOk (TrList i) r'
+              | TtBang :: r'' => TrOk (TNonNullList i) r''
+              | _ => TrOk (TList i) r'
               end
           | TrOk _ _ => TrErr
           | e => e
@@ -109,14 +91,14 @@ Fixpoint tref_parse_toks (limit : nat) (toks : list trtok) : trres :=
       end
   | TtName n :: r =>
       match r with
-      | TtBang :: r' => TrOk (TrNonNullNamed n) r'
-      | _ => TrOk (TrNamed n) r
+      | TtBang :: r' => TrOk (TNonNullNamed n) r'
+      | _ => TrOk (TNamed n) r
       end
   | _ => TrErr
   end.
 
 (* whole-input entry: the text must be exactly one type *)
-Definition tref_parse (limit : nat) (s : str) : option tref :=
+Definition tref_parse (limit : nat) (s : str) : option ty :=
   match tref_lex [] s with
   | None => None
   | Some toks =>
